@@ -534,7 +534,7 @@ func (w *world) call(st *Step) {
 	}
 }
 
-const watchdog = 10 * time.Second
+const watchdog = 30 * time.Second
 
 // step runs one call under recover and a watchdog; false = the call hung (the process must not go on)
 func (w *world) step(st *Step) bool {
